@@ -21,6 +21,9 @@ import (
 // X is the active execution (nil = pass-through mode).
 var X *Exec
 
+// cleaning is the execution whose cleanup functions are running (X is already nil then).
+var cleaning *Exec
+
 // Thread is one cooperative thread of an execution.
 type Thread struct {
 	ID     int
@@ -92,6 +95,9 @@ type Exec struct {
 	noSwitch int // >0: scheduling points do not yield (atomic section)
 	vals     map[string]interface{}
 	racyT    bool
+	quiet    bool // setup phase: scheduling is deterministic (default choice) and offers no alternatives
+	aborter  *Thread
+	unmapped map[*byte]bool
 }
 
 const epoch0 = int64(1_700_000_000) * 1e9
@@ -109,8 +115,15 @@ func Cur() *Thread {
 // Active reports whether an execution is running and not being torn down.
 func Active() bool { return X != nil && !X.aborting }
 
-// Go starts a new thread. In pass-through mode it is a plain goroutine.
-func Go(f func()) *Thread { return GoNamed("", f) }
+// Go is what instrumented `go` statements call: threads spawned by the code under test (send loops, watchers,
+// callbacks) are daemons — they do not keep an execution alive. In pass-through mode it is a plain goroutine.
+func Go(f func()) *Thread {
+	t := GoNamed("", f)
+	if t != nil {
+		t.Daemon = true
+	}
+	return t
+}
 
 // GoDaemon starts a thread that does not keep the execution alive.
 func GoDaemon(name string, f func()) *Thread {
@@ -143,9 +156,6 @@ func GoNamed(name string, f func()) *Thread {
 	t := &Thread{ID: len(x.threads), Name: name, fn: f, wake: make(chan struct{}, 1), exited: make(chan struct{}), idleTo: -1}
 	if x.cur != nil {
 		t.Proc = x.cur.Proc
-		// threads spawned by library code (send loops, watchers, callbacks) are daemons
-		// unless the harness says otherwise: they must not keep an execution alive.
-		t.Daemon = true
 	}
 	x.threads = append(x.threads, t)
 	x.spawn(t)
@@ -233,6 +243,9 @@ func (x *Exec) choices() []int {
 
 // beginAbort marks the execution as over; the reaper (Explorer.runOne) unwinds all threads.
 func (x *Exec) beginAbort() {
+	if !x.aborting {
+		x.aborter = x.cur
+	}
 	x.aborting = true
 	if !x.finOnce {
 		x.finOnce = true
@@ -289,6 +302,20 @@ func Count(name string) {
 func SetKey(f func() uint64) {
 	if X != nil {
 		X.keyFn = f
+	}
+}
+
+// Quiet switches the setup phase on/off: while on, scheduling takes the default choice and records no alternatives.
+func Quiet(on bool) {
+	if X != nil {
+		X.quiet = on
+	}
+}
+
+// RacyTimers switches racy-timer mode (an armed timer may fire as a costed alternative at any scheduling step).
+func RacyTimers(on bool) {
+	if X != nil {
+		X.racyT = on
 	}
 }
 
@@ -458,13 +485,20 @@ func (x *Exec) exit(t *Thread) {
 	x.schedule(nil)
 }
 
-// enabledNormal lists enabled non-idle threads: the yielding thread first, then ascending id.
+// enabledNormal lists enabled non-idle threads: the yielding thread first, then round-robin by id.
 func (x *Exec) enabledNormal(me *Thread, buf []*Thread) []*Thread {
 	buf = buf[:0]
 	if me != nil && me.idleTo < 0 && (me.ready == nil || me.ready()) {
 		buf = append(buf, me)
 	}
-	for _, t := range x.threads {
+	// the others in round-robin order starting behind the yielding (or last running) thread
+	start := 0
+	if x.cur != nil {
+		start = x.cur.ID + 1
+	}
+	nth := len(x.threads)
+	for k := 0; k < nth; k++ {
+		t := x.threads[(start+k)%nth]
 		if t == me || t.done || t.idleTo >= 0 {
 			continue
 		}
@@ -534,10 +568,26 @@ func (x *Exec) schedule(me *Thread) {
 		if timerOpt {
 			n++
 		}
-		st := Step{N: n, Budget: x.budget}
-		if meEnabled || timerOpt {
-			st.AltCost = 1
+		if x.quiet {
+			// setup phase: always the default thread, no alternatives, no step recorded
+			t := en[0]
+			if t == me {
+				return
+			}
+			x.cur = t
+			t.wake <- struct{}{}
+			if me == nil {
+				return
+			}
+			<-me.wake
+			if x.aborting {
+				runtime.Goexit()
+			}
+			return
 		}
+		// deviation (delay) bounding: every non-default choice costs one deviation, whether it preempts the running
+		// thread or picks another than the round-robin successor when the running thread blocks or exits
+		st := Step{N: n, Budget: x.budget, AltCost: 1}
 		pos := len(x.Steps)
 		if x.keyFn != nil && n > 0 {
 			st.Key = x.stateKey(me, meEnabled)
@@ -664,6 +714,8 @@ type Options struct {
 	MaxFail    int   // stop after this many failures with distinct signatures (0 = 1)
 	RacyTimers bool
 	KeepGoing  func(f *Failure) bool // return true to continue exploring after this failure
+	ShardI     int                   // this explorer expands only the level-1 subtrees with index % ShardN == ShardI
+	ShardN     int                   // (0 or 1 = no sharding); every shard runs the root execution
 }
 
 // Result summarises an exploration.
@@ -692,6 +744,7 @@ type Explorer struct {
 	visited map[uint64]int8
 	res     *Result
 	stop    bool
+	l1      int
 }
 
 func (e *Explorer) visit(k uint64, budget int) bool {
@@ -746,6 +799,9 @@ func (e *Explorer) runOne(prefix []int) *Exec {
 	x.cur = t
 	t.wake <- struct{}{}
 	<-x.fin
+	if x.aborter != nil {
+		<-x.aborter.exited // the thread that ended the execution unwinds first, alone
+	}
 	// reap: unwind every thread, one at a time, in id order
 	for i := 0; i < len(x.threads); i++ {
 		th := x.threads[i]
@@ -761,9 +817,11 @@ func (e *Explorer) runOne(prefix []int) *Exec {
 		<-th.exited
 	}
 	X = nil
+	cleaning = x
 	for i := len(x.cleanup) - 1; i >= 0; i-- {
 		x.cleanup[i]()
 	}
+	cleaning = nil
 	return x
 }
 
@@ -850,6 +908,12 @@ func (e *Explorer) dfs(prefix []int) {
 				continue
 			}
 			for alt := s.N - 1; alt >= 1; alt-- {
+				if len(it.prefix) == 0 && e.opts.ShardN > 1 {
+					e.l1++
+					if e.l1%e.opts.ShardN != e.opts.ShardI {
+						continue
+					}
+				}
 				p := make([]int, i+1)
 				copy(p, ch[:i])
 				p[i] = alt
